@@ -817,8 +817,26 @@ class _SlugsResponse(object):
         return self._body
 
 
+# A second URL form, http://slugs/D=<name>/users/<user>[/groups], answers from the read-only table
+# SLUGS_DIRECTORY (user -> groups; users not listed get 404): one service URL for all users, as a
+# real deployment has, so that sessions can share one auth configuration object. SLUGS_HOOK, if
+# set, is called with the URL before every answer (an I/O point the schedule explorer can own).
+SLUGS_DIRECTORY = {}
+SLUGS_HOOK = None
+
+
 def _slugs_get(url, timeout=None):
     assert url.startswith('http://slugs/'), url
+    if SLUGS_HOOK is not None:
+        SLUGS_HOOK(url)
+    if url.startswith('http://slugs/D='):
+        _, _, tail = url.partition('/users/')
+        user = tail[:-len('/groups')] if tail.endswith('/groups') else tail
+        if user not in SLUGS_DIRECTORY:
+            return _SlugsResponse(404, {})
+        if tail.endswith('/groups'):
+            return _SlugsResponse(200, {'groups': list(SLUGS_DIRECTORY[user])})
+        return _SlugsResponse(200, {})
     rest = url[len('http://slugs/G='):]
     groups_part, sep, tail = rest.partition('/users/')
     assert sep, url
